@@ -6,6 +6,13 @@
 //   (2) "packet numbers on the wire strictly increase within a space";
 //   (3) "the peer, knowing only the largest number acknowledged so far, reconstructs exactly the number sent".
 // (Prompt acknowledgement -- the timer part of the statement -- is a per-call obligation of layer F, not a history fact.)
+//
+// STATUS of the layer-F side: parts (2) and (3) use exactly the predicates discharged by
+// contracts/kani/transport/c08_tx_packet_numbers.rs and contracts/kani/core/c08_packet_number.rs.  Part (1) is stated over
+// the ack_ranges.rs predicates (am_processed_subset_at, am_ack_only_removes_at, am_frame_is_ranges_at), for which NO
+// registered Kani harness exists: the AckManager / ack::Ranges harnesses (probes/kani_injected_c08_ack_manager.rs,
+// probes/kani_injected_c08_ack_ranges.rs) time out in CBMC.  Part (1) is therefore a conditional result: "if the three
+// operations satisfy these one-step contracts, every ACK names only processed packets, for every history".
 
 // =====================================================================================================
 // (1) ACK ranges are a subset of the processed packet numbers
